@@ -285,7 +285,9 @@ def make_builtins(it):
         it.ctx.ghost["clock_n"] = k + 1
         v = it.ctx.input_int("clock[%d]" % k, 0, 1 << 61)
         if prev is not None:
-            it.ctx.assume(cmp(">=", v, prev))
+            strict = getattr(it.ctx, "clock_strict", False)
+            it.ctx.assume(cmp(">" if strict else ">=", v, prev))
+        it.ctx.clock_strict = False
         it.ctx.clock = v
         return v
     reg("$time.monotonic_ns", f_monotonic_ns)
